@@ -69,6 +69,62 @@ def _clamped(expr):
     return False
 
 
+
+def _take_arms(chk, repo, mod, take, pn, W):
+    none_arm = inf_arm = None
+    for st in docstring_free(take.body):
+        if isinstance(st, ast.If):
+            t = unparse(st.test)
+            if t == "%s is None" % pn:
+                none_arm = st
+            elif "isinf(%s)" % pn in t:
+                inf_arm = st
+    chk.require(none_arm is not None, "Stream.take: 'if %s is None' arm not found" % pn)
+    r = none_arm.body[-1]
+    good = isinstance(r, ast.Return) and isinstance(r.value, ast.Call) and unparse(r.value.func) == "next" \
+        and len(r.value.args) == 1 and _self_data(r.value.args[0])
+    chk.decide(good, "C03.take", W("Stream.take"), "n is None arm: " + short(r),
+               why="take() without n must return the single next item of self._data (StopIteration when empty)", node=r)
+    chk.require(inf_arm is not None, "Stream.take: +inf arm not found")
+    r = inf_arm.body[-1]
+    good = isinstance(r, ast.Return) and isinstance(r.value, ast.Call) and len(r.value.args) == 1 \
+        and _self_data(r.value.args[0]) and "%s > 0" % pn in unparse(inf_arm.test)
+    chk.decide(good, "C03.take", W("Stream.take"), "inf arm: if %s: %s" % (unparse(inf_arm.test), short(r)),
+               why="take(inf) must hand all of self._data to the constructor, only for +inf", node=r)
+    last = docstring_free(take.body)[-1]
+    chk.require(isinstance(last, ast.Return), "Stream.take: final return not found")
+    counts = _count_exprs(last, mod)
+    for helper in [f for f in take.body if isinstance(f, FuncTypes)]:
+        if any(isinstance(n, ast.Call) and isinstance(n.func, ast.Name) and n.func.id == helper.name
+               for n in ast.walk(last)):
+            counts += _count_exprs(helper, mod)
+    chk.require(counts, "Stream.take: general arm has no range()/islice() bound - idiom not recognised")
+    for c in counts:
+        chk.decide(_is_rounding_of(c, pn), "C03.take", W("Stream.take"), "general arm count: " + unparse(c),
+                   why="the number of items taken must be n itself (after rounding), without offset", node=c)
+    srcs = [n for n in ast.walk(last) if _self_data(n)]
+    chk.decide(len(srcs) >= 1, "C03.take", W("Stream.take"), "general arm consumes self._data: " + short(last),
+               why="take must remove the items from this stream's own iterator", node=last)
+    # float rounding statement
+    for st in docstring_free(take.body):
+        if isinstance(st, ast.If) and "isinstance(%s, float)" % pn in unparse(st.test):
+            asg = st.body[0]
+            if isinstance(asg, ast.Assign) and isinstance(asg.value, ast.IfExp):
+                v = asg.value
+                good = _is_rounding_of(v.body, pn) and isinstance(v.orelse, ast.Constant) and v.orelse.value == 0 \
+                    and unparse(v.test) in ("%s > 0" % pn, "0 < %s" % pn)
+                chk.decide(good, "C03.take", W("Stream.take"), "float arm: " + short(asg),
+                           why="float n must be rounded when positive and 0 otherwise (-inf, nan)", node=asg)
+                # the documented rounding of the library (half-way cases away from zero) is lazy_misc.rint
+                rounders = [c for c in ast.walk(v.body) if isinstance(c, ast.Call)]
+                uses_rint = len(rounders) == 1 and canon(mod, rounders[0].func) == "lazy_misc:rint" \
+                    and [unparse(a) for a in rounders[0].args] == [pn]
+                chk.decide(uses_rint, "C03.take", W("Stream.take"), "float n rounded by lazy_misc.rint: " + unparse(v.body),
+                           why="take(n)/peek(n) round a float count to the nearest integer with exact halves away from "
+                               "zero (rint); int(round(n)) sends 0.5 -> 0 and 2.5 -> 2 (banker's rounding): fewer items "
+                               "than the model", node=asg)
+
+
 def run(chk, repo):
     mod = repo.mod(LS)
     stream = repo.find(LS, "Stream")
@@ -206,58 +262,49 @@ def run(chk, repo):
     params = [a.arg for a in take.args.args]
     chk.require(len(params) >= 2, "Stream.take signature unrecognised")
     pn = params[1]
-    none_arm = inf_arm = None
-    for st in docstring_free(take.body):
-        if isinstance(st, ast.If):
-            t = unparse(st.test)
-            if t == "%s is None" % pn:
-                none_arm = st
-            elif "isinf(%s)" % pn in t:
-                inf_arm = st
-    chk.require(none_arm is not None, "Stream.take: 'if %s is None' arm not found" % pn)
-    r = none_arm.body[-1]
-    good = isinstance(r, ast.Return) and isinstance(r.value, ast.Call) and unparse(r.value.func) == "next" \
-        and len(r.value.args) == 1 and _self_data(r.value.args[0])
-    chk.decide(good, "C03.take", W("Stream.take"), "n is None arm: " + short(r),
-               why="take() without n must return the single next item of self._data (StopIteration when empty)", node=r)
-    chk.require(inf_arm is not None, "Stream.take: +inf arm not found")
-    r = inf_arm.body[-1]
-    good = isinstance(r, ast.Return) and isinstance(r.value, ast.Call) and len(r.value.args) == 1 \
-        and _self_data(r.value.args[0]) and "%s > 0" % pn in unparse(inf_arm.test)
-    chk.decide(good, "C03.take", W("Stream.take"), "inf arm: if %s: %s" % (unparse(inf_arm.test), short(r)),
-               why="take(inf) must hand all of self._data to the constructor, only for +inf", node=r)
-    last = docstring_free(take.body)[-1]
-    chk.require(isinstance(last, ast.Return), "Stream.take: final return not found")
-    counts = _count_exprs(last, mod)
-    for helper in [f for f in take.body if isinstance(f, FuncTypes)]:
-        if any(isinstance(n, ast.Call) and isinstance(n.func, ast.Name) and n.func.id == helper.name
-               for n in ast.walk(last)):
-            counts += _count_exprs(helper, mod)
-    chk.require(counts, "Stream.take: general arm has no range()/islice() bound - idiom not recognised")
-    for c in counts:
-        chk.decide(_is_rounding_of(c, pn), "C03.take", W("Stream.take"), "general arm count: " + unparse(c),
-                   why="the number of items taken must be n itself (after rounding), without offset", node=c)
-    srcs = [n for n in ast.walk(last) if _self_data(n)]
-    chk.decide(len(srcs) >= 1, "C03.take", W("Stream.take"), "general arm consumes self._data: " + short(last),
-               why="take must remove the items from this stream's own iterator", node=last)
-    # float rounding statement
-    for st in docstring_free(take.body):
-        if isinstance(st, ast.If) and "isinstance(%s, float)" % pn in unparse(st.test):
-            asg = st.body[0]
-            if isinstance(asg, ast.Assign) and isinstance(asg.value, ast.IfExp):
-                v = asg.value
-                good = _is_rounding_of(v.body, pn) and isinstance(v.orelse, ast.Constant) and v.orelse.value == 0 \
-                    and unparse(v.test) in ("%s > 0" % pn, "0 < %s" % pn)
-                chk.decide(good, "C03.take", W("Stream.take"), "float arm: " + short(asg),
-                           why="float n must be rounded when positive and 0 otherwise (-inf, nan)", node=asg)
-                # the documented rounding of the library (half-way cases away from zero) is lazy_misc.rint
-                rounders = [c for c in ast.walk(v.body) if isinstance(c, ast.Call)]
-                uses_rint = len(rounders) == 1 and canon(mod, rounders[0].func) == "lazy_misc:rint" \
-                    and [unparse(a) for a in rounders[0].args] == [pn]
-                chk.decide(uses_rint, "C03.take", W("Stream.take"), "float n rounded by lazy_misc.rint: " + unparse(v.body),
-                           why="take(n)/peek(n) round a float count to the nearest integer with exact halves away from "
-                               "zero (rint); int(round(n)) sends 0.5 -> 0 and 2.5 -> 2 (banker's rounding): fewer items "
-                               "than the model", node=asg)
+    # take / skip / limit as decision tables over representative counts (whatever the spelling of the guards)
+    from ..scenario import Sym, run_table, numeric_hook
+    from ..peval import Obj
+    from ..ratfun import Inconclusive
+    inf_ = float("inf")
+    DATA = Sym("self._data")
+    CONS = Sym("constructor")
+    sym_calls = {"next": "next", "itertools.islice": "islice", "it.islice": "islice"}
+    hook = numeric_hook(lambda f: canon(mod, f), sym_calls)
+
+    def half_away(x):
+        import math as _m
+        return int(_m.floor(abs(x) + 0.5)) * (1 if x >= 0 else -1)
+    reps = [None, inf_, -inf_, float("nan"), 2.5, 3.0, 0.5, 0.4, 1.5, 0.0, -2.5, 5, 1, 0, -3]
+    try:
+        rows = run_table(docstring_free(take.body), [(repr(v), {pn: v}) for v in reps],
+                         lambda: {"self": Obj("self", {"_data": DATA}), (params[2] if len(params) > 2 else "constructor"): CONS},
+                         hook)
+        bad = []
+        for v, (label, got) in zip(reps, rows):
+            if v is None:
+                want = ("return", Sym("next", DATA))
+            elif v == inf_:
+                want = ("return", Sym("call", CONS, DATA))
+            else:
+                k = (half_away(v) if v > 0 else 0) if isinstance(v, float) else max(v, 0)
+                want = ("return", Sym("call", CONS, Sym("islice", DATA, max(k, 0))))
+            if got != want:
+                bad.append("take(%s) is %s, documented %s" % (label, got[1] if got[0] == "return" else "%s %s" % got[:2], want[1]))
+        chk.decide(not bad, "C03.take", W("Stream.take"),
+                   "decision table over %d representative counts (None, +-inf, nan, halves, negative, int)" % len(reps),
+                   why="; ".join(bad[:4]) or "-", node=take)
+        table_decided = True
+    except Inconclusive as ex:
+        table_decided = False
+        chk.note("C03.take", W("Stream.take"), "decision table not folded (%s): the arm-by-arm rule below decides" % ex)
+
+    try:
+        _take_arms(chk, repo, mod, take, pn, W)
+    except AnalysisError:
+        if not table_decided:
+            raise
+
 
     # ---------------------------------------------------------------- peek
     chk.rule("C03.peek", "Stream.peek never touches self._data; what it consumes is the result of self.copy(); "
@@ -338,6 +385,32 @@ def run(chk, repo):
         chk.decide(not later, "C03.tee", W(q), "%s not read after being tee'd" % owner,
                    why="reading the tee'd iterator directly desynchronises the copies", node=t)
 
+    # StreamTeeHub.copy: copies are made only while one is left; an exhausted hub raises like any other use
+    from .c08 import leaves as _leaves2
+    hc = repo.find(LS, "StreamTeeHub.copy")
+    for lf in _leaves2(docstring_free(hc.body)):
+        pol = None
+        for c_, p_ in lf.conds:
+            tx = unparse(c_)
+            if tx in ("self._iters", "len(self._iters) > 0", "len(self._iters) != 0", "len(self._iters)"):
+                pol = p_
+            elif tx in ("not self._iters", "len(self._iters) == 0"):
+                pol = not p_
+            else:
+                raise AnalysisError("StreamTeeHub.copy: guard not interpretable: %s" % tx)
+        has_tee = any(isinstance(n, ast.Call) and canon_call(mod, n) == "itertools.tee" for s_ in lf.stmts for n in ast.walk(s_))
+        raises_ = any(isinstance(s_, ast.Raise) or (isinstance(s_, ast.Expr) and unparse(s_.value) == "iter(self)")
+                      or (isinstance(s_, ast.Return) and s_.value is not None and unparse(s_.value) in ("iter(self)", "Stream(iter(self))"))
+                      for s_ in lf.stmts)
+        if pol is True or (pol is None and has_tee):
+            chk.decide(has_tee and isinstance(lf.stmts[-1], ast.Return), "C03.tee", W("StreamTeeHub.copy"),
+                       "copies left: " + "; ".join(short(s_) for s_ in lf.stmts)[:120],
+                       why="with a copy left, copy() must tee it and return the new Stream", node=hc)
+        else:
+            chk.decide(raises_ and not has_tee, "C03.tee", W("StreamTeeHub.copy"),
+                       "no copy left: " + ("; ".join(short(s_) for s_ in lf.stmts)[:120] or "falls through"),
+                       why="an exhausted hub must raise (iter(self) -> IndexError), not hand out None", node=hc)
+
     # ----------------------------------------------------------------- hub
     chk.rule("C03.hub", "StreamTeeHub.__init__ tees exactly its n; __iter__ pops one copy inside a try whose "
                         "IndexError handler raises IndexError; every Stream method that rebinds or reads self._data "
@@ -356,6 +429,28 @@ def run(chk, repo):
     chk.decide(len(stored) == 1 and t in list(ast.walk(stored[0].value)), "C03.hub", W("StreamTeeHub.__init__"),
                "self._iters holds the tee outputs: " + (short(stored[0]) if stored else "<none>"),
                why="the copies handed out must be the tee outputs", node=init)
+    # the source of the tee is the raw iterator that Stream.__init__ built from data (super call first)
+    ibody = docstring_free(init.body)
+
+    def _is_super(e, attr):
+        return isinstance(e, ast.Call) and isinstance(e.func, ast.Attribute) and e.func.attr == attr \
+            and isinstance(e.func.value, ast.Call) and unparse(e.func.value.func) == "super" \
+            and [unparse(a_) for a_ in e.func.value.args] in ([], ["StreamTeeHub", ip[0]]) and not e.func.value.keywords
+    sup = [(i_, st_) for i_, st_ in enumerate(ibody) if isinstance(st_, ast.Expr) and (
+        (_is_super(st_.value, "__init__") and [unparse(a_) for a_ in st_.value.args] == [ip[1]])
+        or (isinstance(st_.value, ast.Call) and base_name(canon(mod, st_.value.func) or "") == "Stream.__init__"
+            and [unparse(a_) for a_ in st_.value.args] == [ip[0], ip[1]]))]
+    tee_stmt = [i_ for i_, st_ in enumerate(ibody) if t in list(ast.walk(st_))]
+    chk.decide(len(sup) == 1 and tee_stmt and sup[0][0] < tee_stmt[0], "C03.hub", W("StreamTeeHub.__init__"),
+               "Stream.__init__(data) runs before the tee: " + (short(sup[0][1]) if sup else "<missing>"),
+               why="without it the hub has no source iterator to copy", node=init)
+    src_e = t.args[0] if t.args else None
+    if isinstance(src_e, ast.Name):
+        defs_ = [st_ for st_ in ibody if isinstance(st_, ast.Assign) and unparse(st_.targets[0]) == src_e.id]
+        src_e = defs_[-1].value if len(defs_) == 1 else None
+    chk.decide(src_e is not None and (_is_super(src_e, "__iter__") and not src_e.args or _self_data(src_e)),
+               "C03.hub", W("StreamTeeHub.__init__"), "tee source is the raw iterator: " + (unparse(src_e) if src_e is not None else "?"),
+               why="iter(self) would already pop a copy; anything else is not the data given", node=t)
     src_ok = not any(_self_data(n) and isinstance(n.ctx, ast.Store) for n in own_nodes(init))
     chk.decide(src_ok, "C03.hub", W("StreamTeeHub.__init__"), "self._data set only by Stream.__init__ (super call)",
                why="hub source must be the iterator Stream.__init__ builds", node=init)
@@ -502,6 +597,49 @@ def run(chk, repo):
                     chk.decide(_clamped(c), "C03.inplace", W("Stream." + name), "count clamped at 0: " + unparse(c),
                                why="itertools.islice raises ValueError for a negative bound: %s(n) with n < 0 must "
                                    "behave as n = 0" % name, node=c)
+            if name == "limit":
+                good = isinstance(v, ast.Call) and canon_call(mod, v) == "itertools.islice" and len(v.args) == 2 \
+                    and not v.keywords and _self_data(v.args[0])
+                chk.decide(good, "C03.inplace", W("Stream.limit"), short(st),
+                           why="limit(n) keeps the first n items: islice(self._data, n) with a stop bound only", node=st)
+            elif scope is not fn:
+                # skip through a nested generator g(data): [drop the first K items of data] ; pass every other item on
+                gp = [a.arg for a in scope.args.args]
+                gb = docstring_free(scope.body)
+                ys = [n for n in own_nodes(scope) if isinstance(n, (ast.Yield, ast.YieldFrom))]
+                passes_on = False
+                if gb and len(gp) == 1 and helper_args == ["self._data"]:
+                    lastst = gb[-1]
+                    if isinstance(lastst, ast.For) and not lastst.orelse and isinstance(lastst.target, ast.Name) \
+                            and unparse(lastst.iter) == gp[0] and len(lastst.body) == 1 \
+                            and isinstance(lastst.body[0], ast.Expr) and isinstance(lastst.body[0].value, ast.Yield) \
+                            and unparse(lastst.body[0].value.value) == lastst.target.id:
+                        passes_on = True
+                    elif isinstance(lastst, ast.Expr) and isinstance(lastst.value, ast.YieldFrom) \
+                            and unparse(lastst.value.value) == gp[0]:
+                        passes_on = True
+                chk.decide(passes_on and len(ys) == 1, "C03.inplace", W("Stream.skip"),
+                           "after the dropped items every item of the old iterator is passed on: %s"
+                           % (short(gb[-1]) if gb else "-"),
+                           why="skip(n) must yield exactly the items after the first n, each once, in order "
+                               "(%d yield(s) in the generator)" % len(ys), node=scope)
+                drops = [st_ for st_ in gb[:-1]]
+                ok_drop = len(drops) == 1 and (
+                    (isinstance(drops[0], ast.For) and not drops[0].orelse
+                     and all(isinstance(b_, ast.Pass) for b_ in drops[0].body)
+                     and isinstance(drops[0].iter, ast.Call) and canon_call(mod, drops[0].iter) == "itertools.islice"
+                     and len(drops[0].iter.args) == 2 and unparse(drops[0].iter.args[0]) == (gp[0] if gp else "?"))
+                    or (isinstance(drops[0], ast.Expr) and isinstance(drops[0].value, ast.Call)
+                        and canon_call(mod, drops[0].value) in ("collections.deque", "deque")
+                        and len(drops[0].value.args) >= 1 and isinstance(drops[0].value.args[0], ast.Call)
+                        and canon_call(mod, drops[0].value.args[0]) == "itertools.islice"
+                        and len(drops[0].value.args[0].args) == 2
+                        and unparse(drops[0].value.args[0].args[0]) == (gp[0] if gp else "?")
+                        and [unparse(k_.value) for k_ in drops[0].value.keywords if k_.arg == "maxlen"] == ["0"]))
+                chk.decide(ok_drop, "C03.inplace", W("Stream.skip"),
+                           "dropped prefix: %s" % ("; ".join(short(d_) for d_ in drops) or "nothing"),
+                           why="the first n items of the old iterator are pulled and thrown away, once, inside the "
+                               "generator (lazily)", node=scope)
             reads_old = any(_self_data(n) and isinstance(n.ctx, ast.Load) for n in own_nodes(fn)) \
                 or "self._data" in helper_args
             chk.decide(reads_old, "C03.inplace", W("Stream." + name), "new iterator derived from old self._data",
@@ -557,6 +695,25 @@ def run(chk, repo):
         p = getattr(p, "_parent", None)
     chk.decide(wraps_stream, "C03.itee", "%s:tee" % im.relpath, "each tee output wrapped in its own Stream",
                why="outputs must be independent Streams", node=c)
+    # which arm for which input, and the default count
+    for lf in _leaves2(docstring_free(tee.body)):
+        pol = None
+        for c_, p_ in lf.conds:
+            tx = unparse(c_)
+            if tx in ("isinstance(%s, (Stream, Iterator))" % tpar[0], "isinstance(%s, (Iterator, Stream))" % tpar[0]):
+                pol = p_
+            elif tx in ("not isinstance(%s, (Stream, Iterator))" % tpar[0],):
+                pol = not p_
+            else:
+                raise AnalysisError("lazy_itertools.tee: guard not interpretable: %s" % tx)
+        uses_tee = any(n is c for s_ in lf.stmts for n in ast.walk(s_))
+        chk.decide(pol is not None and uses_tee == pol, "C03.itee", "%s:tee" % im.relpath,
+                   "%s input -> %s" % ("Stream/Iterator" if pol else "other", "itertools.tee copies" if uses_tee else "the object repeated"),
+                   why="iterators must be tee'd (not shared); anything else is repeated as it is", node=tee)
+    dflt = tee.args.defaults
+    chk.decide(len(dflt) == 1 and isinstance(dflt[0], ast.Constant) and dflt[0].value == 2, "C03.itee",
+               "%s:tee" % im.relpath, "default n = " + (unparse(dflt[0]) if dflt else "<none>"),
+               why="tee(data) is a pair, like itertools.tee", node=tee)
     rng = [n for n in own_nodes(tee) if isinstance(n, ast.Call) and canon_call(im, n) == "range"]
     chk.decide(len(rng) == 1 and [unparse(a) for a in rng[0].args] == tpar[1:], "C03.itee", "%s:tee" % im.relpath,
                "non-iterator arm repeats the object n times: " + (short(rng[0]) if rng else "<none>"),
